@@ -2,9 +2,14 @@
 PROP = dict(
         libs=["explore", "canon"],
         level="model_checking", shards=1,
+        inject={"internal/verifmc/c14util": ["mc/c14/util/*.go"]},
         targets=[
             dict(name="sph", pkg="internal/ackhandler", test="TestVerifC14Sph", files=["mc/c14/sph/*.go"],
                  parts=["amp-full", "amp-core", "amp-lean", "amp-deep"]),
+            dict(name="tok", pkg="internal/handshake", test="TestVerifC14Tok", files=["mc/c14/tok/*.go"],
+                 parts=["tok-mutate", "tok-bitpairs"]),
+            dict(name="srv", pkg=".", test="TestVerifC14Srv", files=["mc/c14/srv/*.go"],
+                 parts=["srv-initial"]),
         ],
         level_text="TODO",
         level_note="TODO",
